@@ -42,6 +42,23 @@ CLAIMED = {
          "Static decision for every byte string of each of 3195 length/shape configurations at once: wherever the frame decoder accepts (reserved MHDR bits zero) the encoder does not refuse, and the re-encoding is the same length and bit-identical to the input; refutations carry a concrete frame. Lengths above 44 add no new order type of the decoders' length comparisons.",
          "Trusts internal/absint. Join-accept and proprietary payloads are opaque bytes at this level.",
          "DESIGN.md §3 C08"),
+
+ "C02": ("abstract interpretation of calculateUplink/DownlinkDataMIC on symbolic frames, keys and counters with AES-CMAC as an uninterpreted function; B0/B1 bytes, message, key and MIC-byte composition compared with the specification's blocks; interpreter-requested trace partitioning; SSA provenance rules for the Set*/Validate* wrappers",
+         "Static decision, for all keys, counters, addresses, flags and payload bytes at once (per frame shape and MAC version), that each MIC byte is the specified byte of the specified CMAC term, whose key, 16-byte B0/B1 block (incl. 32-bit FCnt, ACK-gated ConfFCnt mod 2^16, TxDr/TxCh, direction, length) and message are the specification's; consequently nothing else can influence the MIC. CMAC/AES numerics are trusted, concrete vectors are the test suite's job.",
+         "Trusts internal/absint and the uninterpreted-function model of cmac/aes (equal inputs give equal outputs, nothing else assumed).",
+         "DESIGN.md §3 C02"),
+ "C03": ("abstract interpretation of EncryptFRMPayload/EncryptFOpts and the PHYPayload methods with AES uninterpreted; output compared byte-for-byte with an independently constructed data XOR AES(K, A_i) stream; involution and length by BDD equality; error discipline by SSA rules",
+         "Static decision for all keys, addresses, 32-bit counters, directions and payload bytes at once (payload lengths 0..40 incl. non-aligned multi-block, FOpts 0..15 and the rejected 16) that the ciphertext is the specification keystream XOR, that the block counter is i, that re-applying restores the plaintext, and that the methods feed isUplink/DevAddr/32-bit FCnt/AFCntDown as specified. AES numerics trusted.",
+         "Trusts internal/absint and AES as an uninterpreted function; Decrypt* decode steps and error-swallow rules come from the flow engine.",
+         "DESIGN.md §3 C03"),
+ "C04": ("abstract interpretation of the join MIC functions and join-accept encrypt/decrypt with AES/CMAC uninterpreted, OptNeg partitioned; MIC message, key and per-block cipher direction compared with an independently constructed expectation",
+         "Static decision for all identifiers, nonces, keys and payload fields at once that the join/rejoin MIC input is MHDR|payload, the join-accept MIC input carries the JoinReqType|JoinEUI|DevNonce prefix exactly under OptNeg, encryption is per-block AES-decrypt over payload|MIC and decryption per-block AES-encrypt with the split at len-4 and re-parse of the 12/28-byte forms (all CFList shapes via partitioning). That AES encrypt/decrypt are mutually inverse and their numerics are trusted.",
+         "Trusts internal/absint, uninterpreted AES/CMAC.",
+         "DESIGN.md §3 C04"),
+ "C11": ("bit-precise abstract interpretation of SetAddrPrefix/NwkID/NetIDType/IsNetID/NetID.ID on fully symbolic NetID and DevAddr, compared bit by bit / as boolean functions with the addressing table; binary identifier codecs via the codec harness; text/SQL forms via flow rules",
+         "Static decision over all 2^24 NetIDs x 2^32 DevAddrs at once (BDD equality) of the prefix/NwkID/NwkAddr routing per NetID type, of NwkID extraction, of the leading-ones type decision and of the membership predicate, plus byte-reversal and exact-length tests of the four identifier binary codecs.",
+         "Trusts internal/absint and the transcribed addressing table (widths 6,6,9,11,12,13,15,17; ID widths 6,6,9,21).",
+         "DESIGN.md §3 C11"),
 }
 
 NOT_APPLICABLE = {
